@@ -122,7 +122,8 @@ def _row_fields_of(mod, cls_name: str):
                     keys.append(k.value)
         for n in ast.walk(fn):
             if isinstance(n, ast.Assign) and isinstance(n.targets[0], ast.Subscript) and isinstance(n.targets[0].slice, ast.Constant) \
-                    and isinstance(n.targets[0].value, ast.Name) and n.targets[0].value.id == "fields":
+                    and isinstance(n.targets[0].value, ast.Name) and isinstance(n.targets[0].slice.value, str):
+                # (`<dict>["key"] = …` with a constant key, whatever the local dict is called)
                 if n.targets[0].slice.value not in keys:
                     keys.append(n.targets[0].slice.value)
 
@@ -172,6 +173,26 @@ def _locate_parsers(cls: ast.ClassDef):
             best_n = (k, fn)
     assert best_a[1] is not None and best_n[1] is not None, "row → action / row → node functions not found in FlowParser"
     return best_a[1], best_n[1]
+
+
+def _probe_media_export():
+    acts = t1lib.load("rpft.rapidpro.models.actions")
+    rest = "0123456789abcdef"
+    plain = acts.SendMessageAction(text="t1 probe").get_row_model_fields()
+    kinds, cuts = [], set()
+    for k in plain:                                   # column order of the exported fields
+        if not isinstance(k, str) or plain[k] != "":
+            continue
+        att = f"{k}:{rest}"
+        try:
+            f = acts.SendMessageAction(text="t1 probe", attachments=[att]).get_row_model_fields()
+        except Exception:  # noqa: BLE001
+            continue
+        v = f.get(k)
+        if isinstance(v, str) and v and att.endswith(v) and not f.get("attachments"):
+            kinds.append(k)
+            cuts.add(len(att) - len(v))
+    return kinds, (cuts.pop() if len(cuts) == 1 else None)
 
 
 def tables() -> str:
@@ -270,6 +291,11 @@ def tables() -> str:
         if isinstance(n, ast.Subscript) and isinstance(n.slice, ast.Slice) and ast.unparse(n.value) == "attachment":
             assert n.slice.upper is None and n.slice.step is None
             cut = n.slice.lower.value
+    if not (media_export and isinstance(cut, int)):
+        # not written as `for kind in [...]: … attachment[k:]` (helper method, hoisted tuple, len(prefix)): read it from
+        # BEHAVIOUR — a lone attachment `<kind>:<rest>` of a media kind is exported in the column of that kind (the
+        # kinds in the order of their columns in the exported fields), `<rest>` being what follows the cut
+        media_export, cut = _probe_media_export()
     assert media_export and isinstance(cut, int)
 
     # contact properties accepted when loading a set_contact_* action
